@@ -9,6 +9,53 @@ TB = ("Trusted: Coq 8.16.1 kernel + vm_compute (no native_compute, no axioms); t
       "the correspondence check (Go harness compiled into the working tree with -overlay, generators, printers, constants translator); ")
 
 CLAIMS = {
+ "C04": dict(
+   text='Theorems over Model/DMap.v (owner-side semantics of every mutating operation with synchronous replication): for EVERY operation sequence, routing, replica count and clock readings, after each operation every backup copy equals the primary copy in value, expiry and timestamp, is absent exactly when the primary copy is absent, and no other member holds a copy (C04_mirror); hence single-copy reads agree. The model is executed against real clusters (N,R) in {(3,2),(3,3),(2,2)} on random sequences through 7 client paths with a white-box dump of all copies after every operation, on every run.',
+   note=TB + "stable healthy cluster (all backups reachable; quorum decisions are C05's); write timestamps of acknowledged sequential operations increase; timing-ambiguous cases are discarded and counted.",
+   ref='DESIGN.md 9 C04'),
+ "C05": dict(
+   text="Theorems (all R, W, RQ, reachable subsets, copy layouts): a sync Put is acknowledged iff 1+reachable >= W and exactly the reachable holders store it; "
+        "Get returns a value only with >= RQ copies and ErrReadQuorum when the key exists on too few reachable holders; below MemberCountQuorum every "
+        "non-exempt command and NewDMap answer the cluster-quorum error and change nothing. Executed on real 3-4 member clusters over the full (R,W,RQ) grid "
+        "with every subset of unreachable backups (RESP gate) and below-quorum members on every run.",
+   note=TB + "INTERNAL.NODE.UPDATEROUTING is exempt from the member-count precondition by design (stated in the theorem); a Get of a key that exists nowhere "
+        "returns ErrReadQuorum when RQ>=2 (pinned by an upstream test, stated in C05_read_iff).",
+   ref="DESIGN.md 9 C05, fixes/DESIGN-C05-C06.md"),
+ "C06": dict(
+   text="Theorems: sortVersions is a descending permutation whose head is the last maximal element; Get returns one of the copies with maximal timestamp; "
+        "merging fragments in any permutation with any re-deliveries keeps per key a copy of maximal timestamp (exactly the newest one when timestamps are "
+        "distinct); read-repair brings the owner's and every reachable stale backup copy to the winner. Executed on real clusters over an exhaustive small "
+        "space of copy layouts (ties, missing copies, RR on/off) and all merge orders of 3 fragments on every run.",
+   note=TB + "the read-repair/Delete race (D24) is an open known finding with a _refuted theorem and a deterministic witness; msgpack/roaring serialisation are oracles.",
+   ref="DESIGN.md 9 C06, fixes/DESIGN-C05-C06.md"),
+ "C16": dict(
+   text="Theorems: every parser of internal/protocol is total (never indexes past the argument vector, every option loop terminates within length+1 iterations) "
+        "for every argument vector; mux+wrapper dispatch is total; handlers reject out-of-range partition ids before any dereference. Executed against the real "
+        "parsers (in-process, recover+watchdog) on all vectors up to a bound over a 24-token alphabet and against a real member in a child process over TCP "
+        "(command vectors, crafted payloads, random byte streams) on every run.",
+   note=TB + "strconv float parsing is an oracle; ASCII case folding only; redcon's RESP reader is a dependency (open known finding: multibulk-count spin).",
+   ref="DESIGN.md 9 C16, fixes/DESIGN-C16.md"),
+ "C17": dict(
+   text="Theorems: entry encode/decode round trip for every well-formed entry; every integer width/signedness reads back equal through the RESP text codec and "
+        "out-of-range text is rejected; bool/duration/bytes identity; byte-level table: get-after-put and get-after-put_raw return the entry, other hkeys unchanged, "
+        "too-long keys and too-large entries are rejected leaving the table unchanged. Executed: encoder/scan differential, typed round trips through 4 client "
+        "paths with replication and after migration, boundary keys and entry sizes on every run.",
+   note=TB + "floats, time.Time and BinaryMarshaler are tested only (strconv/time are oracles).",
+   ref="DESIGN.md 9 C17, fixes/DESIGN-C17-C18.md"),
+ "C18": dict(
+   text="Theorems over a heap model (blocks and Go slice descriptors): for all runs mixing store operations and client writes, blocks reachable from returned "
+        "handles and slab blocks are disjoint; a returned value never changes and writing into it never changes the store or other handles; Put arguments may be "
+        "reused. Executed on the real engine and clusters (embedded owner/non-owner, cluster client, GetPut, iterator, compaction, table recycling, migration).",
+   note=TB + "Go's memory model (copy semantics of make/copy) is assumed; FutureGet.Result() called twice is not exercised.",
+   ref="DESIGN.md 9 C18, fixes/DESIGN-C17-C18.md"),
+ "C09": dict(
+   text="Theorems over Model/DMap.v with the clock as input: an expired, not yet evicted entry is indistinguishable from an absent one for every operation (C09_expired_is_absent: a simulation between states that differ only in expired entries), background eviction passes placed anywhere change no result (C09_eviction_is_invisible), a key with relative expiry ms set at t is readable at every t'<t+ms and at no t'>=t+ms, and the ttl rules (plain Put/GetPut reset, Incr/Decr keep, Expire replaces and keeps the value). Executed on real clusters: every ttl source x probe x client path around a 240 ms deadline, with eviction forced or not.",
+   note=TB + "real clocks are compared with a 40 ms margin (closer runs are discarded and counted); durations are multiples of 1 ms; MaxIdleDuration is C10's (no_idle hypothesis).",
+   ref='DESIGN.md 9 C09'),
+ "C19": dict(
+   text="Theorems over Model/DMap.v (state keyed by member, kind, DMap name, key): Destroy leaves no primary or backup copy of the DMap on any member, every key reads not-found and the DMap accepts new writes (C19_destroy_complete); no operation on DMap A changes any copy of a DMap with a different name, whatever the keys (C19_frame); eviction only removes invisible entries. Executed on real clusters of 1-3 members: pairs of DMaps incl. name+key concatenation collisions and A vs 'dmap.'+A, interleaved operations, Destroy through 4 paths, eviction passes; B is read and dumped after every step on A.",
+   note=TB + '64-bit hash collisions between different keys of one DMap are outside the property; the janitor race D22 is not modelled.',
+   ref='DESIGN.md 9 C19'),
  "C11": dict(
    text="Theorems over the Gallina model of internal/kvstore (record level): for every operation sequence, table size and map-iteration "
         "order the store refines a map (C11_refines_map), compaction is the identity and terminates within a stated bound, Stats.Length / "
@@ -34,10 +81,9 @@ CLAIMS = {
         "operation atomic (Go runtime); concurrent publishers are judged by the python predicate only.",
    ref="DESIGN.md 9 C14, fixes/DESIGN-C14.md"),
  "C15": dict(
-   text="Exhaustive differential of every operation x option combination x prior state x 7 client paths on real clusters against the reference "
-        "semantics and the mirror predicate; theorems (options round trip through the command builders and parsers) are being added.",
-   note=TB + "durations are multiples of 1 ms; timing-ambiguous cases are discarded and counted.",
-   ref="DESIGN.md 9 C15"),
+   text='Theorems: for every Put configuration (at most one of EX/PX/EXAT/PXAT, at most one of NX/XX) and for Expire/PExpire, Lock EX|PX, Lease/PLease, Scan options, Get/GetPut RW, Destroy LC, GetEntry/DelEntry RC, the server parses the command the client-side builders produce into exactly the same configuration (C15_*_roundtrip over Model/Proto.v), and the owner-side semantics (Model/DMap.v) depends on the decoded configuration only. Executed: exhaustive grid of operations x options x prior state x 7 client paths (embedded owner/non-owner/backup, cluster client, raw RESP, pipeline) on real clusters, judged by one reference semantics for all paths and compared with the model.',
+   note=TB + 'strconv float/int formatting enter the round-trip theorems as explicit hypotheses (oracles); durations are multiples of 1 ms; the handler-side two-switch decoding is covered by the differential, not yet by a theorem.',
+   ref='DESIGN.md 9 C15, fixes/DESIGN-C16.md'),
  "C20": dict(
    text="Theorems: in every reachable state (any sequence of Put/PutRaw/Delete/UpdateTTL/Compaction) each table satisfies inuse+garbage=offset<=allocated "
         "with inuse = bytes of live records (superseded bytes are garbage on both write paths); Put allocates at most one table; compaction makes "
